@@ -6,4 +6,4 @@ d=$(mktemp -d /tmp/seedeval_XXXX)
 rsync -a --exclude target --exclude .git --exclude doc --exclude test/artificial_samples /repo/ $d/
 (cd $d && git init -q . 2>/dev/null; git -C $d apply --whitespace=nowarn $patch) || { echo "patch does not apply"; rm -rf $d; exit 2; }
 cd /verif && ./check $prop --repo $d --slot seedeval 2>&1 | grep -E "^==|violated:|UNDECIDED|ANCHOR|Traceback|FACT-ERROR|VIOLATION" | cut -c1-${COLS:-380}
-rm -rf $d /verif/.work/facts-seedeval
+rm -rf $d /verif/.work/facts-seedeval*
